@@ -403,6 +403,49 @@ theorem authority_node (ord : Order) (s : State) (op : Op) (i : Key) (h : Inv s)
     · exact absurd e' hchg
     · exact ⟨e, n, rfl, hn, hnone, hexp⟩
 
+/-- **The entity and the consensus key of an existing node record never change — whether the node is
+active or has expired and is only kept for the debonding period** (`VerifyNodeUpdate` checks both before
+its "only for active nodes" early return), for every operation: as long as node `i` stays registered its
+record names the same entity, so the nodes-by-entity entry and the `registry.RegisterNode.<i>` stake claim
+stay with that entity until the node is removed. -/
+theorem node_entity_never_changes (ord : Order) (s : State) (op : Op) (i : Key) (cur n' : Node) (h : Inv s)
+    (hcur : s.nodes.get i = some cur) (hnew : (step ord s op).1.nodes.get i = some n') :
+    n'.entity = cur.entity ∧ n'.cons = cur.cons := by
+  by_cases hchg : (step ord s op).1.nodes.get i = s.nodes.get i
+  · rw [hchg, hcur] at hnew; cases hnew; exact ⟨rfl, rfl⟩
+  · rcases authority_node ord s op i h hchg with ⟨_, sn, _, _, _, hn, _, _, _, _, _, _, hsame⟩ | ⟨_, _, _, _, hnone, _⟩
+    · rw [hn] at hnew; cases hnew
+      obtain ⟨h1, h2⟩ := hsame cur hcur
+      exact ⟨h1.symm, h2.symm⟩
+    · rw [hnone] at hnew; cases hnew
+
+/-- The same for whole histories: at every point of every history, if node `i` was registered under
+entity `e` and has been registered ever since, it is still registered under `e`. -/
+theorem node_entity_stable_along_history (p : Params) (pre ops : List Op) (i : Key) (cur : Node)
+    (hcur : (run codeOrder (init p) pre).nodes.get i = some cur)
+    (hkept : ∀ k, k ≤ ops.length → ∃ m, (run codeOrder (run codeOrder (init p) pre) (ops.take k)).nodes.get i = some m) :
+    ∃ m, (run codeOrder (run codeOrder (init p) pre) ops).nodes.get i = some m ∧ m.entity = cur.entity := by
+  have key : ∀ (ops : List Op) (s : State), Inv s → (∃ m, s.nodes.get i = some m ∧ m.entity = cur.entity) →
+      (∀ k, k ≤ ops.length → ∃ m, (run codeOrder s (ops.take k)).nodes.get i = some m) →
+      ∃ m, (run codeOrder s ops).nodes.get i = some m ∧ m.entity = cur.entity := by
+    intro ops
+    induction ops with
+    | nil => intro s _ hc _; exact hc
+    | cons op rest ih =>
+      intro s hI hc hk
+      obtain ⟨m, hm, hme⟩ := hc
+      obtain ⟨m1, hm1⟩ := hk 1 (by simp)
+      have hm1' : (step codeOrder s op).1.nodes.get i = some m1 := by simpa [run] using hm1
+      have h1 := node_entity_never_changes codeOrder s op i m m1 hI hm hm1'
+      have hrun : ∀ l : List Op, run codeOrder s (op :: l) = run codeOrder (step codeOrder s op).1 l := by
+        intro l; simp [run]
+      rw [hrun]
+      apply ih _ (inv_step s op hI) ⟨m1, hm1', by rw [h1.1, hme]⟩
+      intro k hkl
+      have := hk (k + 1) (by simp; omega)
+      rwa [List.take_succ_cons, hrun] at this
+  exact key ops _ (inv_run_repaired _ pre (inv_init p)) ⟨cur, hcur, rfl⟩ hkept
+
 /-- **Runtimes.**  A runtime descriptor (ignoring the `suspended` flag, which node registrations may clear)
 changes only by a registration whose caller is the staking address of the descriptor that governs the
 runtime *before* the change — the owning entity under entity governance, the runtime itself under
